@@ -1,6 +1,6 @@
 (* Proofs/SparseProofs.v — proofs about Vars/Sparse.v: the reference map is a finite map; binary search;
-   SetIndexedElem/DeleteIndexedElem/lookups refine the map operations and keep the representation invariant;
-   every interpreter operation refines its bash rule; lifted to all histories. *)
+   SetIndexedElem/DeleteIndexedElem/lookups/slicing refine the map operations and keep the representation
+   invariant; every interpreter operation refines its bash rule; lifted to all histories. *)
 From Coq Require Import ZifyNat ZifyBool ZifyN.
 From Verif Require Import Base.Str Vars.Sparse.
 Open Scope Z_scope.
@@ -866,4 +866,133 @@ Qed.
 Lemma abs_wf : forall a, Inv a -> m_wf 0 (abs a).
 Proof.
   intros a HI. destruct (inv_idx a HI) as [H1 H2]. unfold m_wf. rewrite abs_idx, combine_keys by exact H1. exact H2.
+Qed.
+
+(* ================================================================ E. slicing ${a[@]:off:len} *)
+
+Lemma filter_all_ge : forall ix (l : list str) lo f, sorted_from lo ix -> f <= lo ->
+  filter (fun kv : Z * str => f <=? fst kv) (combine ix l) = combine ix l.
+Proof.
+  induction ix as [|x r IH]; intros l lo f Hs Hf; [reflexivity|]. destruct l as [|y l]; [reflexivity|].
+  destruct Hs as [H1 H2]. simpl. replace (f <=? x) with true by lia. f_equal. apply (IH l (x + 1)); [exact H2|lia].
+Qed.
+
+Lemma filter_skipn : forall ix (l : list str) lo f, length ix = length l -> sorted_from lo ix ->
+  map snd (filter (fun kv : Z * str => f <=? fst kv) (combine ix l)) = skipn (lb ix f) l.
+Proof.
+  induction ix as [|x r IH]; intros l lo f Hlen Hs; destruct l as [|y l]; try discriminate; [reflexivity|].
+  simpl in Hlen. destruct Hs as [H1 H2]. simpl.
+  destruct (x <? f) eqn:E.
+  - replace (f <=? x) with false by lia. simpl. apply (IH l (x + 1)); [lia|exact H2].
+  - replace (f <=? x) with true by lia. simpl. f_equal.
+    rewrite (filter_all_ge r l (x + 1) f H2) by lia. apply combine_vals. lia.
+Qed.
+
+Lemma sorted_le_last : forall ix lo x, sorted_from lo ix -> In x ix -> x <= last ix 0.
+Proof.
+  induction ix as [|a r IH]; intros lo x Hs Hin; [contradiction|].
+  destruct Hs as [H1 H2]. destruct r as [|b r'].
+  - destruct Hin as [<-|[]]. simpl. lia.
+  - change (last (a :: b :: r') 0) with (last (b :: r') 0).
+    destruct Hin as [<-|Hin].
+    + specialize (IH (a + 1) b H2 (or_introl eq_refl)). simpl in H2. lia.
+    + apply (IH (a + 1)); assumption.
+Qed.
+
+Lemma lb_all_below : forall ix k, (forall x, In x ix -> x < k) -> lb ix k = length ix.
+Proof.
+  induction ix as [|a r IH]; intros k H; [reflexivity|]. simpl.
+  replace (a <? k) with true by (specialize (H a (or_introl eq_refl)); lia).
+  f_equal. apply IH. intros x Hx. apply H. right. exact Hx.
+Qed.
+
+Lemma slice_len_ok : forall (sel : list str) n, 0 <= n ->
+  slice_to (Z.to_nat (slice_pos n sel)) sel = Ok (firstn (Z.to_nat n) sel).
+Proof.
+  intros sel n Hn. unfold slice_to, slice_pos, len. replace (n <? 0) with false by lia.
+  destruct (Z.of_nat (length sel) <? n) eqn:E.
+  - rewrite Nat2Z.id. rewrite Nat.leb_refl. rewrite firstn_all. rewrite firstn_all2 by lia. reflexivity.
+  - replace (Z.to_nat n <=? length sel)%nat with true by lia. reflexivity.
+Qed.
+
+Theorem slice_elems_ok : forall a off len_, Inv a -> (forall n, len_ = Some n -> 0 <= n) ->
+  slice_elems a off len_ = m_slice (abs a) off len_.
+Proof.
+  intros a off len_ HI Hlen.
+  destruct (inv_idx a HI) as [H1 H2].
+  pose proof (indexed_max_ok a HI) as Hmax.
+  assert (Hstep1 : forall o,
+    (match a_idx a with
+     | Some (x :: r) =>
+         let mx := last (x :: r) 0 in
+         let o' := if o <? 0 then (let o2 := o + (mx + 1) in if o2 <? 0 then mx + 1 else o2) else o in
+         match bsearch (x :: r) o' with
+         | Ok (pos, _) => slice_from pos (a_list a)
+         | Err c => Err c
+         | Panic => Panic
+         end
+     | _ => slice_from (Z.to_nat (slice_pos o (a_list a))) (a_list a)
+     end) = Ok (match (if o <? 0 then (if o + (m_max (abs a) + 1) <? 0 then None else Some (o + (m_max (abs a) + 1))) else Some o) with
+                | None => []
+                | Some f => map snd (filter (fun kv : Z * str => f <=? fst kv) (abs a))
+                end)).
+  { intros o. rewrite <- Hmax. rewrite abs_idx. unfold indexed_max, idx_of in *.
+    destruct (a_idx a) as [[|x r]|] eqn:Ei.
+    - exfalso. unfold Inv in HI. rewrite Ei in HI. destruct HI as (_ & _ & H3). discriminate.
+    - set (ix := x :: r) in *. set (mx := last ix 0).
+      cbv zeta. 
+      assert (Hsf : forall f, match bsearch ix f with Ok (pos, _) => slice_from pos (a_list a) | Err c => Err c | Panic => Panic end
+                              = Ok (map snd (filter (fun kv : Z * str => f <=? fst kv) (combine ix (a_list a))))).
+      { intros f. rewrite (bsearch_sorted ix 0 f H2). unfold slice_from.
+        pose proof (lb_le_length ix f). replace (lb ix f <=? length (a_list a))%nat with true by lia.
+        rewrite (filter_skipn ix (a_list a) 0 f H1 H2). reflexivity. }
+      destruct (o <? 0) eqn:E0.
+      + destruct (o + (mx + 1) <? 0) eqn:E1.
+        * rewrite Hsf. f_equal.
+          rewrite (filter_skipn ix (a_list a) 0 (mx + 1) H1 H2).
+          rewrite lb_all_below.
+          -- rewrite H1. apply skipn_all.
+          -- intros y Hy. pose proof (sorted_le_last ix 0 y H2 Hy). unfold mx. lia.
+        * apply Hsf.
+      + apply Hsf.
+    - clear Ei. set (l := a_list a) in *. set (n := length l) in *.
+      unfold slice_from, slice_pos, len. fold n.
+      assert (Hf : forall f, 0 <= f -> map snd (filter (fun kv : Z * str => f <=? fst kv) (combine (iota n) l))
+                                       = skipn (Nat.min (Z.to_nat f) n) l).
+      { intros f Hf0. rewrite (filter_skipn (iota n) l 0 f H1 H2). unfold iota. rewrite iota_from_lb by lia.
+        replace (f - 0) with f by lia. reflexivity. }
+      destruct (o <? 0) eqn:E0.
+      + replace (o + (Z.of_nat n - 1 + 1)) with (Z.of_nat n + o) by lia.
+        destruct (Z.of_nat n + o <? 0) eqn:E1.
+        * rewrite Nat2Z.id. rewrite Nat.leb_refl. f_equal. apply skipn_all.
+        * replace (Z.to_nat (Z.of_nat n + o) <=? n)%nat with true by lia. rewrite Hf by lia.
+          do 2 f_equal. lia.
+      + rewrite Hf by lia. destruct (Z.of_nat n <? o) eqn:E1.
+        * rewrite Nat2Z.id. rewrite Nat.leb_refl. do 2 f_equal. lia.
+        * replace (Z.to_nat o <=? n)%nat with true by lia. do 2 f_equal. lia. }
+  unfold slice_elems, m_slice.
+  assert (Hfull : map snd (filter (fun kv : Z * str => 0 <=? fst kv) (abs a)) = a_list a).
+  { rewrite abs_idx. rewrite (filter_all_ge (idx_of a) (a_list a) 0 0 H2) by lia. apply combine_vals. exact H1. }
+  destruct off as [o|].
+  - rewrite Hstep1. destruct len_ as [n|]; [|reflexivity].
+    specialize (Hlen n eq_refl). replace (n <? 0) with false by lia. apply slice_len_ok. exact Hlen.
+  - rewrite Hfull. destruct len_ as [n|]; [|reflexivity].
+    specialize (Hlen n eq_refl). replace (n <? 0) with false by lia. apply slice_len_ok. exact Hlen.
+Qed.
+
+(* the divergence outside the scope of slice_elems_ok, as a theorem about the model *)
+Theorem slice_negative_length_refuted :
+  exists a off n, Inv a /\ n < 0 /\ slice_elems a off (Some n) <> m_slice (abs a) off (Some n).
+Proof.
+  exists (mkArr [[112%N]; [113%N]; [114%N]] None), (Some 1), (-1). split; [exact I|]. split; [lia|].
+  vm_compute. discriminate.
+Qed.
+
+Theorem history_slices : forall ops a, run ops = Ok (VArr a) ->
+  forall off len_, (forall n, len_ = Some n -> 0 <= n) ->
+  exists m, s_run ops = SArr m /\ slice_elems a off len_ = m_slice m off len_.
+Proof.
+  intros ops a Hr off len_ Hl. destruct (run_ok ops) as (v & H1 & H2 & H3).
+  rewrite Hr in H1. inversion H1; subst v. simpl in H2, H3.
+  exists (abs a). split; [symmetry; exact H3|]. apply slice_elems_ok; assumption.
 Qed.
